@@ -4,6 +4,44 @@ import json, pathlib
 V = pathlib.Path(__file__).resolve().parent.parent
 ALL = [f"C{i:02d}" for i in range(1, 20)]
 CLAIMED = {
+ "C02": dict(
+   text="Coq theorems: (1) for every history of arrivals, bare calls, connects, disconnects and resets the all-of trigger fires "
+        "exactly at the steps where its round is complete (sound+complete), then starts a fresh round, given that scoped labels "
+        "identify emitters; refuted without that hypothesis (known finding S11); any-of fires once per call. (2) for every hand-wired "
+        "signal graph over function/comparison/If/all-of nodes, every fuel and starting list, the loop as the code performs it (with "
+        "per-node input caches) ends in the same state as the plain FIFO interpretation of the signal connections. Both models are "
+        "run against real AccumulatingInputSignal objects and real non-automated Workflows; an independent python queue interpreter "
+        "is the oracle.",
+   design="7/C02", technique="Coq induction over op histories + simulation proof (cached loop refines queue spec) + differential correspondence + oracle",
+   note="All children local, no failing functions (C06), no executors in flows. Trusts the harness's python reference interpreter "
+        "as oracle and the generators' coverage (distribution in evidence)."),
+ "C15": dict(
+   text="Coq theorems over WfIO.v (model of Workflow._build_io, the map setters, panel assignment and run): characterisation of the "
+        "IO panels for every state, identity of exposed channels, hidden/connected rules, return dictionary, bijectivity of maps, "
+        "invariant over every edit history; refuted witnesses for key collisions (known findings S18, S33). Edit histories are "
+        "run on real Workflows and compared step by step with the model; the oracle checks the characterisation directly.",
+   design="7/C15", technique="Coq proof of a characterisation + invariant over histories + differential correspondence + oracle",
+   note="Availability theorem is partial (guard: no scoped-label collision, no map name shadowing a default key). Per-step "
+        "observations are compared through a 61-bit hash computed alike on both sides (TRUSTED in evidence). Type hints, executors, "
+        "failing children not covered here."),
+ "C16": dict(
+   text="Coq theorems over ForLoop.v: dictionary_to_index_maps equals the nested-times-zipped enumeration (mixed radix digits, length "
+        "prod x min), the returned table equals the specification table for every body function, layout, output form, column map "
+        "and completion order, re-runs rebuild exactly the body nodes of the current lengths; two refuted witnesses (known findings "
+        "mixed zero length, column map clash). Real For nodes (incl. thread-pool bodies) are compared with the model and with a "
+        "plain-python nested-loops reference.",
+   design="7/C16", technique="Coq proof (induction over key lists / row indices / histories) + differential correspondence + oracle",
+   note="pandas internals, failing bodies, in-place mutation of inputs not modelled; partial theorems carry the guards "
+        "mixed_zero=false and distinct column names."),
+ "C19": dict(
+   text="Coq theorems over Store.v (abstract file system; save as an explicit list of primitive steps so that a crash is any prefix "
+        "incl. a partial write): for every history of saves, failing saves, crashes at every step/byte, loads, deletes: load returns "
+        "the last completed save, no final name ever holds a partial file, a successful save is what the next load/autoload returns, "
+        "delete removes files and emptied directories, class-mismatching loads are refused with the node unchanged. The model's "
+        "predicted traces of os-level calls are compared with traces recorded on the real code; crashes are injected in a child process.",
+   design="7/C19", technique="Coq refinement invariant over histories with crash prefixes + trace correspondence + fault injection + oracle",
+   note="FS assumptions: each primitive atomic (incl. os.replace), a dead process leaves its completed primitives plus a prefix of "
+        "the write in flight, no durability semantics. Two partial theorems (known findings S24 stale tmp after crash, S25 rmdir of cwd)."),
  "C01": dict(
    text="Coq theorems about the abstract DAG-run machine (Dag.v): for every acyclic graph, every node function, every "
         "executor assignment and EVERY enabled sequence of signal deliveries and executor completions ending quiescent: each "
